@@ -75,7 +75,9 @@ pub fn judge_reason(text: &str) -> (Verdict, &'static str) {
     }
     let mut any = false;
     let mut dc = None;
-    for c in text.split(|ch: char| ch.is_ascii_whitespace()).filter(|s| !s.is_empty()) {
+    // the six ASCII white-space characters of C's isspace() (Rust's is_ascii_whitespace() leaves out
+    // the vertical tab, which every other definition includes)
+    for c in text.split(|ch: char| ch.is_ascii_whitespace() || ch == '\x0b').filter(|s| !s.is_empty()) {
         any = true;
         match clause(c) {
             (Verdict::Reject, why) => return (Verdict::Reject, why),
